@@ -620,6 +620,10 @@ func c16ACL(ctx *Ctx) error {
 			return c16Restart(ctx)
 		case "opa":
 			return c16OPA(ctx)
+		case "storm":
+			return c16Storm(ctx)
+		case "reuse-expiry", "reuse-acl-change":
+			return c16Reuse(ctx)
 		}
 		lists = [][]C16AC{w.Ops.ACL}
 	} else {
